@@ -1,6 +1,8 @@
 import CacheVerif.Proofs.ProtoLocks
 import CacheVerif.Proofs.ProtoData
 import CacheVerif.Proofs.ConcCacheLin
+import CacheVerif.Proofs.DeepTrace
+import CacheVerif.Proofs.DeepTraceOf
 /-!
 # C16 — reads never wait for writers: lookups finish while a writer or resize stalls
 
@@ -147,6 +149,36 @@ theorem C16_cache_hit_never_computes (t : Model.ConcCache.Tid) (g : Model.ConcCa
     rcases afterHit_cases l op i g.now with ⟨_, h⟩ | ⟨_, _, _, h⟩ <;> rw [h]
     · exact Or.inl rfl
     · exact Or.inr rfl
+
+/-- **the lookups of the cache layer read only, in the source text.**  The atomic actions the tracing interpreter
+records when it runs `Get`, `GetWithExpiration`, `GetWithTTL` of either file on an absent key or on a key whose entry is
+unexpired, and `Count`, are lock-free `Load`s of the underlying map, `Size`, and clock reads: no `Compute` (hence no
+bucket lock, nothing to wait for), no store.  (On an expired-but-uncleaned entry `get` does go through `Compute`: the
+lazy delete; the property is about live and absent keys.) -/
+theorem C16_source_lookups_read_only (s : Model.CSt K V) (k : K) :
+    (s.items.get k = none ∨ ∃ i, s.items.get k = some i ∧ Gen.item_expired i.e s.now = false) →
+    ∀ op ∈ [Model.Op.get k, .getWithExpiration k, .getWithTTL k, .count],
+      (∃ t, (Deep.deepTrace Deep.twinMapTr s op).map (·.2.2) = some t ∧ t.all DeepTrace.readOnly = true) ∧
+      (∃ t, (Deep.deepTrace Deep.twinMapOfTr s op).map (·.2.2) = some t ∧ t.all DeepTraceOf.readOnly = true) := by
+  intro h op hop
+  simp only [List.mem_cons, List.mem_nil_iff, or_false] at hop
+  rcases h with hg | ⟨i, hg, he⟩
+  · have h1 := DeepTrace.lookup_actions_absent s k hg
+    have h2 := DeepTraceOf.lookup_actions_absent s k hg
+    rcases hop with rfl | rfl | rfl | rfl
+    · exact ⟨⟨_, h1.1, rfl⟩, ⟨_, h2.1, rfl⟩⟩
+    · exact ⟨⟨_, h1.2.1, rfl⟩, ⟨_, h2.2.1, rfl⟩⟩
+    · exact ⟨⟨_, h1.2.2, rfl⟩, ⟨_, h2.2.2, rfl⟩⟩
+    · exact ⟨⟨_, DeepTrace.count_actions s, rfl⟩, ⟨_, DeepTraceOf.count_actions s, rfl⟩⟩
+  · have h1 := DeepTrace.lookup_actions_live s k i hg he
+    have h2 := DeepTraceOf.lookup_actions_live s k i hg (by simpa [DeepTraceOf.ofx] using he)
+    rcases hop with rfl | rfl | rfl | rfl
+    · exact ⟨⟨_, h1.1, rfl⟩, ⟨_, h2.1, rfl⟩⟩
+    · exact ⟨⟨_, h1.2.1, rfl⟩, ⟨_, h2.2.1, rfl⟩⟩
+    · refine ⟨?_, ?_⟩
+      · rcases h1.2.2 with h | h <;> exact ⟨_, h, rfl⟩
+      · rcases h2.2.2 with h | h <;> exact ⟨_, h, rfl⟩
+    · exact ⟨⟨_, DeepTrace.count_actions s, rfl⟩, ⟨_, DeepTraceOf.count_actions s, rfl⟩⟩
 
 end cache
 
